@@ -23,7 +23,7 @@ each of which, when broken, makes some grammar's parser accept or reject wrongly
 """
 import re
 
-from ..mir import Mir, Exprs, canon, parse_at
+from ..mir import Mir, Exprs, canon, parse_at, inline_helpers
 from ..syn import Syn, nodes, ident_of, unparse, method_chain
 from .. import tpl
 from ..report import Result, finish
@@ -243,41 +243,36 @@ def check_move(mir, res, rule):
                 res.violate(rule, "move|%s" % nm, c.where, "every builder entry must be written into the returned table under its own (state, symbol) key and with its own value; found %s" % [x[-80:] for x in a])
     if seen != {"set_action", "set_goto"}:
         res.violate(rule, "move|missing", f.where, "the builder's %s map is not moved into the table" % sorted({"set_action", "set_goto"} - seen))
-    if not re.match(r"^[\w:]+::get_empty_table\(param1\.machine, param1\.file\)$", ret):
+    if not re.match(r"^[\w:]+\(param1\.machine, param1\.file\)$", ret):
         res.violate(rule, "move|base", f.where, "the table must start as the empty table of the same automaton and file; found `%s`" % ret[:160])
 
 
 def check_empty(mir, res, rule):
-    fs = [g for g in mir.fns.values() if not g.derived and g.kind == "Fn" and agg_fields(g, Exprs(g), "table::Table")]
-    fs = [g for g in fs if "/pipeline/" in g.file]
+    fs = [g for g in mir.fns.values() if not g.derived and g.kind in ("Fn", "AssocFn") and agg_fields(g, Exprs(g), "table::Table")]
     if len(fs) != 1:
         res.floor("anchor: empty table constructor", len(fs), 1)
         return
     f = fs[0]
-    v, w = agg_fields(f, Exprs(f), "table::Table")[0]
-    res.inst(rule, "empty|fields", w, True, "%s" % {k: x[:90] for k, x in v.items()})
-    if v.get("start") != "param1.start":
+    v0, w = agg_fields(f, Exprs(f), "table::Table")[0]
+    # helper calls (sizes, list builders) are expanded so that the rule does not depend on how the constructor is cut up
+    v = {k: inline_helpers(mir, x) for k, x in v0.items()}
+    res.inst(rule, "empty|fields", w, True, "%s" % {k: x[:110] for k, x in v.items()})
+    if not re.match(r"^param\d+\.start$", v.get("start", "")):
         res.violate(rule, "empty|start", w, "the table's start state must be the automaton's start; found `%s`" % v.get("start"))
-    ma = re.match(r"^([\w:]+)\(Deref@Oset::deref\(param1\.states\), (.*)\)$", v.get("actions", ""))
-    mg = re.match(r"^([\w:]+)\(Deref@Oset::deref\(param1\.states\), (.*)\)$", v.get("gotos", ""))
-    if not ma or ma.group(2) != v.get("terminals"):
-        res.violate(rule, "empty|action-size", w, "the action array must be sized from the automaton's states and the table's own terminal list; found `%s`" % v.get("actions", "")[:200])
-    if not mg or mg.group(2) != v.get("nonterminals"):
-        res.violate(rule, "empty|goto-size", w, "the goto array must be sized from the automaton's states and the table's own nonterminal list; found `%s`" % v.get("gotos", "")[:200])
+    mp = re.match(r"^(param\d+)\.start$", v.get("start", ""))
+    M = mp.group(1) if mp else "param1"
+    LEN = r"(?:slice|Vec)::len"
+    ST = r"(?:Deref@Oset::deref\()?%s\.states\)?" % re.escape(M)
     n = 0
-    for (m_, dflt, size) in ((ma, "Action::Err{}", r"\(slice::len\(param1\) MulWithOverflow \(slice::len\(param2\) AddWithOverflow const\(1_usize\)\)\.0\)\.0"),
-                             (mg, "Goto::Err{}", r"\(slice::len\(param1\) MulWithOverflow slice::len\(param2\)\)\.0")):
-        if not m_:
-            continue
-        g = [x for x in mir.fns.values() if x.kind == "Fn" and x.path.endswith("::" + m_.group(1).rsplit("::", 1)[-1])]
-        if len(g) != 1:
-            continue
+    for (fld, lst, dflt, plus) in (("actions", "terminals", "Action::Err{}", True), ("gotos", "nonterminals", "Goto::Err{}", False)):
+        L = re.escape(v.get(lst, "?"))
+        width = (r"\(%s\(%s\) AddWithOverflow const\(1_usize\)\)\.0" % (LEN, L)) if plus else (r"%s\(%s\)" % (LEN, L))
+        pat = r"^vec::from_elem\(%s, \(%s\(%s\) MulWithOverflow %s\)\.0\)$" % (re.escape(dflt), LEN, ST, width)
+        ok = re.match(pat, v.get(fld, "")) is not None
         n += 1
-        r_ = canon(Exprs(g[0]).local(0))
-        ok = re.match(r"^vec::from_elem\(%s, %s\)$" % (re.escape(dflt), size), r_) is not None
-        res.inst(rule, "empty|%s" % g[0].name, g[0].where, True, r_)
+        res.inst(rule, "empty|%s" % fld, w, True, v.get(fld, "")[:200])
         if not ok:
-            res.violate(rule, "empty|%s" % g[0].name, g[0].where, "unwritten cells must be `%s` and the array must have states x width cells; found `%s`" % (dflt, r_[:200]))
+            res.violate(rule, "empty|%s" % fld, w, "unwritten cells must be `%s` and the `%s` array must have states x width cells with the width of the table's own `%s` list%s; found `%s`" % (dflt, fld, lst, " plus one" if plus else "", v.get(fld, "")[:240]))
     res.floor("empty array constructors", n, 2)
 
 
@@ -310,7 +305,7 @@ def check_index(mir, res, rule):
         res.inst(rule, "writer|%s" % wr, w.where, True, "index_mut args ok=%s stores=%s" % (okw, stores))
         if not okw:
             res.violate(rule, "writer|%s" % wr, w.where, "the writer must store its value at `%s[%s(state, symbol)]` — the same index function, same argument order as the reader" % (arr, ix))
-        ri = canon(Exprs(by[ix]).local(0))
+        ri = inline_helpers(mir, canon(Exprs(by[ix]).local(0)))
         if ix == "action_index":
             W = r"\(Vec::len\(param1\.terminals\) AddWithOverflow const\(1_usize\)\)\.0"
             col = r"phi\[Option::expect\(Iterator@Iter::position\(slice::iter\(param1\.terminals\), [\w:]+::\{closure#0\}\{\(param3 as Terminal\)\.0\}\), const\(\"[^\"]*\"\)\) \| Vec::len\(param1\.terminals\)\]"
@@ -328,7 +323,7 @@ def check_index(mir, res, rule):
             if not re.match(r"^[\w:]*eq\(param2, param1\.0\)$", rc):
                 res.violate(rule, "index|%s|position-test" % ix, g.where, "the column of a symbol must be the position of the element equal to it; found `%s`" % rc[:160])
     if "state_count" in by:
-        rs = canon(Exprs(by["state_count"]).local(0))
+        rs = inline_helpers(mir, canon(Exprs(by["state_count"]).local(0)))
         res.inst(rule, "state-count", by["state_count"].where, True, rs)
         if rs != "(Vec::len(param1.actions) Div (Vec::len(param1.terminals) AddWithOverflow const(1_usize)).0)":
             res.violate(rule, "state-count", by["state_count"].where, "the number of states must be the action array's length divided by its row width; found `%s`" % rs)
